@@ -323,3 +323,85 @@ Section Exec.
         (s2, (rs, vu) :: out)
     end.
 End Exec.
+
+(* ------------------------------------------------------------------ a node's life: blocks, local requests, restarts *)
+
+(* Besides executing blocks a node process serves requests that are no consensus input, and is restarted now and then:
+     - eth_call / eth_estimateGas / debug_trace* / module queries pinned to ANY committed height
+       (BaseApp.CreateQueryContext(height): a read-only branch of the multistore at that version);
+     - CheckTx (the mempool; also while the next block is being finalized) and simulations, on the check state.
+   Whatever the process keeps in memory besides the stores — caches, memoised parameters, singletons, the check state,
+   keeper fields — is the component [nd_mem]; how a request or a block changes it is an ARBITRARY function ([serve],
+   [after_block]), a restart replaces it by [boot].  In the code as it is, block execution reads the sdk.Context's
+   stores, the header and the node configuration ([nenv]) only: [exec_block] does not get [nd_mem].  (The sweep for
+   package-level variables, sync.Once / sync.Map, keeper fields written after construction found none that
+   FinalizeBlock reads: x/cpc/keeper GetAllCustomPrecompiledContractsMeta iterates the context's store for every EVM
+   instance; x/evm keeper fields are set once in NewKeeper.) *)
+Inductive lreq :=
+| LQuery (ver : nat) (t : txd)        (* a call evaluated on committed version [ver] (0 = oldest) *)
+| LCheckTx (t : txd)
+| LSimulate (t : txd).
+
+Inductive nevent := NBlock (b : header * list txd) | NLocal (q : lreq) | NRestart.
+
+Inductive nout :=
+| OBlock (rs : list txresult) (vu : list (Z * Z))
+| OLocal (r : option txresult) (admitted : bool)
+| ORestarted.
+
+Section Node.
+  Variable interp : header -> world -> txd -> list op * Z * Z * bool.
+  Variable im : impl.
+  Variable mem : Type.
+  Variable serve : mem -> lreq -> mem.
+  Variable after_block : mem -> header * list txd -> mem.
+  Variable boot : mem.
+
+  Record node := mkNode {
+    nd_old : list cstate;      (* older committed versions, oldest first *)
+    nd_cur : cstate;           (* the latest committed state *)
+    nd_mem : mem;
+    nd_n : nat                 (* number of blocks executed: block n runs under the ambient conditions [ef n] *)
+  }.
+
+  (* the answer to a local request: computed from the version it names; nothing is kept *)
+  Definition local_answer (e : nenv) (nd : node) (q : lreq) : nout :=
+    match q with
+    | LQuery ver t =>
+        match nth_error (nd_old nd ++ [nd_cur nd]) ver with
+        | Some s => OLocal (Some (snd (exec_tx interp im e (mkHeader 0 0) 0 s t))) true
+        | None => OLocal None false
+        end
+    | LCheckTx t => OLocal None (checktx_admits e (nd_cur nd) t)
+    | LSimulate t => OLocal (Some (snd (exec_tx interp im e (mkHeader 0 0) 0 (nd_cur nd) t))) true
+    end.
+
+  Fixpoint node_run (ef : nat -> nenv) (nd : node) (l : list nevent) : node * list nout :=
+    match l with
+    | [] => (nd, [])
+    | NBlock b :: r =>
+        let '(s1, rs, vu) := exec_block interp im (ef (nd_n nd)) (nd_cur nd) b in
+        let '(nd', outs) := node_run ef (mkNode (nd_old nd ++ [nd_cur nd]) s1 (after_block (nd_mem nd) b) (S (nd_n nd))) r in
+        (nd', OBlock rs vu :: outs)
+    | NLocal q :: r =>
+        let '(nd', outs) := node_run ef (mkNode (nd_old nd) (nd_cur nd) (serve (nd_mem nd) q) (nd_n nd)) r in
+        (nd', local_answer (ef (nd_n nd)) nd q :: outs)
+    | NRestart :: r =>
+        let '(nd', outs) := node_run ef (mkNode (nd_old nd) (nd_cur nd) boot (nd_n nd)) r in
+        (nd', ORestarted :: outs)
+    end.
+
+  Fixpoint blocks_of (l : list nevent) : list (header * list txd) :=
+    match l with
+    | [] => []
+    | NBlock b :: r => b :: blocks_of r
+    | _ :: r => blocks_of r
+    end.
+
+  Fixpoint block_outs (l : list nout) : list (list txresult * list (Z * Z)) :=
+    match l with
+    | [] => []
+    | OBlock rs vu :: r => (rs, vu) :: block_outs r
+    | _ :: r => block_outs r
+    end.
+End Node.
